@@ -1304,7 +1304,8 @@ func execNet(t *testing.T, raw json.RawMessage, res *Result, focus string) {
 			res.Violate(pfx+"-liveness", "after the last fault, `wrgl fetch origin` still fails: %v\n%s", cr.Err, cr.Stdout)
 			return
 		}
-		if net.Stats.Requests-reqs > 64 {
+		// one round trip per packfile at worst, and a packfile holds at least one object
+		if bound := 64 + 3*len(R.Objs.Keys("")); net.Stats.Requests-reqs > bound {
 			res.Violate(pfx+"-liveness", "final fetch needed %d requests", net.Stats.Requests-reqs)
 			return
 		}
